@@ -287,9 +287,11 @@ pub fn examples(th: bool) -> Vec<Example> {
         let info: Vec<(usize, u64, Vec<Vec<(usize, usize)>>, usize)> = scopes.iter().map(|(n, a)| { let inner = n - 2; (*n, *a, dags(inner), inner * 2 + inner * (inner - 1)) }).collect();
         let sizes: Vec<u64> = info.iter().map(|(_, a, d, e)| d.len() as u64 * a.pow(*e as u32)).collect();
         let count = sizes.iter().sum();
+        let d20 = Case { text: "NAME: rnd.sop\nTYPE: SOP\nCOMMENT: random\nDIMENSION: 10\nEDGE_WEIGHT_TYPE: EXPLICIT\nEDGE_WEIGHT_FORMAT: FULL_MATRIX\nEDGE_WEIGHT_SECTION\n10\n0 46 24 33 47 31 6 26 42 1000000\n-1 0 8 0 33 0 0 29 22 0\n-1 32 0 22 24 0 0 22 35 2\n-1 16 19 0 25 13 26 21 13 0\n-1 35 24 10 0 9 0 13 12 1\n-1 50 26 26 39 0 16 35 38 1\n-1 17 0 12 15 41 0 11 40 0\n-1 51 33 36 33 20 20 0 33 1\n-1 44 34 36 40 23 17 29 0 1\n-1 -1 -1 -1 -1 -1 -1 -1 -1 0\nEOF\n".to_string(),
+            expect: Expect::Value(122.0), descr: "D20 instance: 10 nodes, no precedence among the inner nodes, optimum 122 (found by an independent random search)".to_string() };
         let d12 = Case { text: "NAME: d12.sop\nTYPE: SOP\nCOMMENT: 7 nodes, found by an independent random search (seeded/C16b/notes.md), D12 repaired\nDIMENSION: 7\nEDGE_WEIGHT_TYPE: EXPLICIT\nEDGE_WEIGHT_FORMAT: FULL_MATRIX\nEDGE_WEIGHT_SECTION\n7\n0 15 19 14 1 16 1000000\n-1 0 1 3 -1 9 0\n-1 1 0 8 4 13 9\n-1 17 3 0 8 -1 16\n-1 10 8 15 0 9 7\n-1 3 5 13 1 0 13\n-1 -1 -1 -1 -1 -1 0\nEOF\n".to_string(),
             expect: Expect::Value(27.0), descr: "D12 instance: 7 nodes, precedences 4 < 1 and 5 < 3, optimum 27 = 0 4 5 3 2 1 6".to_string() };
-        ex.push(Example { name: "sop", scope: format!("(nodes, distance alphabet 1..a) in {:?}: all relevant distance assignments x all precedence DAGs on the inner nodes", scopes), count, file_flag: None, tsptw_output: false, extra: vec![d12],
+        ex.push(Example { name: "sop", scope: format!("(nodes, distance alphabet 1..a) in {:?}: all relevant distance assignments x all precedence DAGs on the inner nodes", scopes), count, file_flag: None, tsptw_output: false, extra: vec![d12, d20],
             arg_sets: argsets(&w4, tt, "-w", "-t"),
             gen: Box::new(move |mut idx| {
                 let mut k = 0;
@@ -325,13 +327,31 @@ pub fn examples(th: bool) -> Vec<Example> {
         //  A: ASYMMETRIC distances over {1,2} on 3 nodes, windows earliest {0,2} x width {0,5}, horizon {6,9,14}
         //  D: 4 nodes, all distances 1 except <= 2 directed entries raised to 3 (deviation-bounded asymmetry), windows width {4,9} from 0, horizon {9,14}
         #[derive(Clone, Copy, PartialEq)]
-        enum B { S(usize), A(usize), D }
-        let mut blocks: Vec<(B, u64)> = vec![(B::S(2), 1 * 9 * 3), (B::S(3), 8 * 81 * 3), (B::A(3), 64 * 16 * 3), (B::D, 79 * 8 * 2)];
+        enum B { S(usize), A(usize), D, N }
+        //  N: NON METRIC: all asymmetric matrices over {1,3} on 3 nodes (3 > 1 + 1), windows earliest {0,2} x width {0,5}, horizon {6,9,14};
+        //     block D is non metric as well
+        let mut blocks: Vec<(B, u64)> = vec![(B::S(2), 1 * 9 * 3), (B::S(3), 8 * 81 * 3), (B::A(3), 64 * 16 * 3), (B::D, 79 * 8 * 2), (B::N, 64 * 16 * 3)];
         if th { blocks.push((B::S(4), 64 * 729 * 3)); blocks.push((B::A(3), 64 * 81 * 3)); }
+        // D19 (see DESIGN section 4): two instances met by an independent random search, on which the dev-profile binary crashed
+        // ("attempt to subtract with overflow" in fast_upper_bound: a merged state had spent on optional customers the moves it
+        // needed for the mandatory ones); the workers of the parallel solver then wait for ever
+        let ts_case = |d: Vec<Vec<i64>>, tw: Vec<(i64, i64)>, opt: f64| -> Case {
+            let n = d.len();
+            let text = format!("# hand written\n{}\n{}{}", n, d.iter().map(|r| r.iter().map(|x| x.to_string()).collect::<Vec<_>>().join(" ") + "\n").collect::<String>(), tw.iter().map(|(a, b)| format!("{} {}\n", a, b)).collect::<String>());
+            Case { text, expect: Expect::Value(opt), descr: format!("distances {:?} windows {:?}", d, tw) }
+        };
+        // D21 / D22 (see DESIGN section 4): the reader converted decimal numbers through `(f32 * 10000.0) as usize` (0.39 => 3899: a
+        // deadline rounded DOWN, a feasible instance reported infeasible; integers above 26 844 are not exact in f32 either), and the
+        // objective was printed through f32 (107379 => 107378.99)
+        let d21a = Case { text: "# decimals\n3\n0 0.20 0.30\n0.20 0 0.19\n0.30 0.19 0\n0 100\n0 0.25\n0 0.39\n".to_string(), expect: Expect::Value(0.69), descr: "D21 instance: distances 0.20 0.19 0.30, windows [0,0.25] [0,0.39], optimum 0.69".to_string() };
+        let d21b = Case { text: "# large integers\n3\n0 20000 20000\n20000 0 6845\n20000 6845 0\n0 99999\n0 20000\n0 26845\n".to_string(), expect: Expect::Value(46845.0), descr: "D21 instance: distances 20000 6845, window [0,26845], optimum 46845".to_string() };
+        let d22 = Case { text: "# printing\n2\n0 1\n1 0\n0 200000\n107378 200000\n".to_string(), expect: Expect::Value(107379.0), descr: "D22 instance: 2 nodes, customer window [107378, 200000], optimum 107379".to_string() };
+        let d19a = ts_case(vec![vec![0, 3, 1, 2, 2, 3], vec![3, 0, 3, 1, 2, 1], vec![1, 3, 0, 2, 2, 2], vec![2, 1, 2, 0, 2, 1], vec![2, 2, 2, 2, 0, 3], vec![3, 1, 2, 1, 3, 0]], vec![(0, 16), (4, 18), (2, 29), (0, 37), (0, 34), (0, 38)], 9.0);
+        let d19b = ts_case(vec![vec![0, 25, 15, 11, 30], vec![37, 0, 22, 40, 30], vec![19, 14, 0, 24, 25], vec![18, 35, 27, 0, 33], vec![39, 27, 30, 35, 0]], vec![(0, 200), (0, 292), (0, 280), (0, 169), (0, 42)], 121.0);
         let count = blocks.iter().map(|b| b.1).sum();
         let bl = blocks.clone();
         let th2 = th;
-        ex.push(Example { name: "tsptw", scope: format!("symmetric matrices over {{1,2}} on <= {} nodes (windows earliest {{0,2,4}} x width {{0,2,5}}, horizon {{6,9,14}}); ALL asymmetric matrices over {{1,2}} on 3 nodes; 4 nodes with <= 2 directed entries raised from 1 to 3 (windows width {{4,9}}, horizon {{9,14}}); every matrix closed under shortest paths", if th { 4 } else { 3 }), count, file_flag: None, tsptw_output: true, extra: vec![],
+        ex.push(Example { name: "tsptw", scope: format!("symmetric matrices over {{1,2}} on <= {} nodes (windows earliest {{0,2,4}} x width {{0,2,5}}, horizon {{6,9,14}}); ALL asymmetric matrices over {{1,2}} on 3 nodes; 4 nodes with <= 2 directed entries raised from 1 to 3 (windows width {{4,9}}, horizon {{9,14}}); ALL asymmetric matrices over {{1,3}} on 3 nodes (non metric); no matrix is closed under shortest paths", if th { 4 } else { 3 }), count, file_flag: None, tsptw_output: true, extra: vec![d19a, d19b, d21a, d21b, d22],
             arg_sets: if th { argsets(&w4, tt, "-w", "-t") } else { argsets(&w4, &[Some(1)], "-w", "-t") },
             gen: Box::new(move |mut idx| {
                 let _ = th2;
@@ -356,6 +376,14 @@ pub fn examples(th: bool) -> Vec<Example> {
                         }
                         (n, d, tw)
                     }
+                    B::N => {
+                        let n = 3;
+                        let mut d = vec![vec![0i64; n]; n];
+                        for i in 0..n { for j in 0..n { if i != j { d[i][j] = [1, 3][digit(&mut idx, 2) as usize]; } } }
+                        let mut tw: Vec<(i64, i64)> = vec![(0, [6, 9, 14][digit(&mut idx, 3) as usize])];
+                        for _ in 1..n { let e = [0, 2][digit(&mut idx, 2) as usize]; let w = [0, 5][digit(&mut idx, 2) as usize]; tw.push((e, e + w)); }
+                        (n, d, tw)
+                    }
                     B::D => {
                         let n = 4;
                         let mut d = vec![vec![1i64; n]; n];
@@ -370,7 +398,9 @@ pub fn examples(th: bool) -> Vec<Example> {
                         (n, d, tw)
                     }
                 };
-                for kk in 0..n { for i in 0..n { for j in 0..n { if d[i][kk] + d[kk][j] < d[i][j] { d[i][j] = d[i][kk] + d[kk][j]; } } } }
+                // NO closure under shortest paths: 326 of the first 400 shipped benchmark files violate the triangle inequality, so
+                // non metric matrices are well formed (an earlier version of this generator closed every matrix, which hid D18)
+                let _ = &mut d;
                 let mut best: Option<i64> = None;
                 for p in perms(n - 1) {
                     let mut t = 0; let mut cur = 0; let mut ok = true;
@@ -482,7 +512,13 @@ pub fn examples(th: bool) -> Vec<Example> {
         let sizes: Vec<u64> = scopes.iter().map(|(t, ni)| (1u64 << (t * ni)) * 3u64.pow((ni * (ni - 1)) as u32) * (1u64 << ni)).collect();
         let count = sizes.iter().sum();
         let sc = scopes.clone();
-        ex.push(Example { name: "psp", scope: format!("(periods, items) in {:?}: all 0/1 demand matrices, change-over costs in {{0,1,2}}, stocking costs in {{0,1}}", scopes), count, file_flag: None, tsptw_output: false, extra: vec![],
+        // D17 (known finding, see DESIGN section 4): PspRelax::merge keeps the component-wise minimum of the pending demands, i.e. drops
+        // demands; a dropped item can no longer be produced below the merged node, although producing it can make the change-overs
+        // CHEAPER when the change-over costs violate the triangle inequality (685 of the 1 715 shipped instances do).  Two instances met
+        // by an independent random search: 6 periods / 3 items (wrong with -w 1) and 7 periods / 4 items (wrong with the default width)
+        let d17a = Case { text: "6\n3\n3\n\n0 0 1\n0 0 0\n1 1 0\n\n0 0 0\n\n0 0 1 0 0 0\n0 0 0 0 1 0\n0 0 0 1 0 0\n\n0\n".to_string(), expect: Expect::Value(0.0), descr: "D17 instance: 6 periods, 3 items, change-over [[0,0,1],[0,0,0],[1,1,0]], optimum 0".to_string() };
+        let d17b = Case { text: "7\n4\n6\n\n0 0 0 1\n55 0 1 55\n0 1 0 0\n52 52 0 0\n\n0 0 0 3\n\n0 0 0 0 0 1 1\n0 0 0 1 0 0 1\n1 0 0 0 0 0 0\n0 0 0 0 0 0 1\n\n55\n".to_string(), expect: Expect::Value(55.0), descr: "D17 instance: 7 periods, 4 items, optimum 55".to_string() };
+        ex.push(Example { name: "psp", scope: format!("(periods, items) in {:?}: all 0/1 demand matrices, change-over costs in {{0,1,2}}, stocking costs in {{0,1}}", scopes), count, file_flag: None, tsptw_output: false, extra: vec![d17a, d17b],
             arg_sets: argsets(&w4, &[None], "-w", "-t"),
             gen: Box::new(move |mut idx| {
                 let mut k = 0;
